@@ -1184,6 +1184,10 @@ pub(crate) fn analyze<V: Val, S: StratExt<V>>(
         for o in &sorted {
             hist_hash = mix(hist_hash, (o.t as u64) << 56 ^ (o.kind as u64) << 48 ^ o.ret.wrapping_mul(31) ^ o.a);
         }
+        if std::env::var_os("ASV_DUMP_HIST").is_some() {
+            let hist: Vec<String> = sorted.iter().map(|o| o.brief()).collect();
+            eprintln!("HIST container {} init {:x} final {:?}: {}", c, init_ids[c], f, hist.join(" | "));
+        }
         // Known mechanism D5 (DESIGN.md section 3): a reader's stale first read P (value A of this
         // container, since destroyed) is published as a debt; a writer of ANOTHER container, whose
         // removed value B lives at the reused address P, pays that debt; the reader takes the
